@@ -361,4 +361,51 @@ def recoverBytesLegacy (kv : Store) (walBytes : Bytes) : Option Store := recover
 /-- what the property's observables can see: the key/value contents and the stable pointer -/
 def Disk.sameView (a b : Disk) : Prop := a.kv = b.kv ∧ a.stable = b.stable
 
+/-! ### context.data (candidate list): how the file is replaced
+
+  `RunContext.Flush` (store/beansdb.go) persists the candidate list. Two protocols are modelled, at the
+  granularity "which bytes does a file name show":
+  * `ctxCrash` — the code as it is NOW (/repo commit "fix: RunContext replaces context.data atomically"):
+    open `context.data.tmp` with O_CREATE|O_TRUNC, write head and body, fsync, close, `rename` it over
+    `context.data`; `Load` reads `context.data` only and calls Flush directly when the file is absent;
+  * `ctxCrashLegacy` — the code BEFORE that commit: `context.data` is opened and overwritten from
+    offset 0 (so a crash leaves a prefix of the new bytes over the old ones), and on the first start an
+    empty file is created before the first flush. -/
+
+/-- the two file names of the data directory that matter; `none` = the name does not exist -/
+structure CtxFs where
+  main : Option Bytes      -- context.data
+  tmp : Option Bytes       -- context.data.tmp
+  deriving DecidableEq, Repr
+
+/-- where the process dies inside a flush of the new protocol -/
+inductive CtxCrashPoint where
+  | before                 -- nothing touched yet
+  | tmpWritten (k : Nat)   -- temp file opened (truncated) and the first `k` bytes of the new content written
+  | renamed                -- rename executed (the temp name is gone)
+  deriving Repr
+
+/-- durable state after a crash of `Flush new` at the given point (new protocol) -/
+def ctxCrash (fs : CtxFs) (new : Bytes) : CtxCrashPoint → CtxFs
+  | .before => fs
+  | .tmpWritten k => { fs with tmp := some (new.take k) }
+  | .renamed => { main := some new, tmp := none }
+
+/-- what the next start reads: `RunContext.load` opens `context.data` only (absent = empty list, which the
+    start then flushes); the temp file is never opened for reading -/
+def ctxLoad (fs : CtxFs) : Option Bytes := fs.main
+
+/-- where the process dies inside a flush of the LEGACY protocol (rewrite in place) -/
+inductive CtxCrashPointLegacy where
+  | created                -- first start only: createFile done, Flush not started: empty file visible
+  | overwritten (k : Nat)  -- the first `k` bytes of the new content overwrite the old file from offset 0
+  deriving Repr
+
+/-- bytes of a file of content `old` after its first `k` bytes were overwritten by `new` -/
+def overwrite (old new : Bytes) (k : Nat) : Bytes := new.take k ++ old.drop (min k new.length)
+
+def ctxCrashLegacy (fs : CtxFs) (new : Bytes) : CtxCrashPointLegacy → CtxFs
+  | .created => { fs with main := some [] }
+  | .overwritten k => { fs with main := some (overwrite (fs.main.getD []) new k) }
+
 end LemoModel.Wal
